@@ -170,6 +170,9 @@ func selfTags(c *Case, results ...Canon) []string {
 	if len(results) == 2 && varianceConditioning(c, results[0], results[1]) {
 		tags = append(tags, "variance-conditioning")
 	}
+	if len(results) == 2 && illConditionedWith(c, results[0], results[1], newImpl) {
+		tags = append(tags, "ill-conditioned")
+	}
 	if pinnedOutsideStepInvariant(c) {
 		tags = append(tags, "pinned-parameter-outside-step-invariant")
 	}
